@@ -10,10 +10,10 @@ def register(db):
         db.add(Contract(name=CORE + "HTML." + m, params=[("self", "AttrVal")], returns="Str", self_class="HTML",
                         requires=["isRawV(self)"], ensures=["result == strOf(self)"], props=P + ["C01", "C05", "C06", "C07"]))
         db.method_table[("HTML", m)] = CORE + "HTML." + m
-    db.add(Contract(name=CORE + "HTML.__add__", params=[("self", "AttrVal"), ("other", "AttrVal")], returns="AttrVal", self_class="HTML",
-                    requires=["isRawV(self)"], ensures=["result == addTH(self, other)"], fresh=True, props=P,
-                    note="`other` ranges over str | HTML; arbitrary objects go through str(other), an external call (A5)"))
-    db.add(Contract(name=CORE + "HTML.__radd__", params=[("self", "AttrVal"), ("other", "AttrVal")], returns="AttrVal", self_class="HTML",
-                    requires=["isRawV(self)", "not isRawV(other)"], ensures=["result == addTH(other, self)"], fresh=True, props=P))
+    db.add(Contract(name=CORE + "HTML.__add__", params=[("self", "AttrVal"), ("other", "AddArg")], returns="AttrVal", self_class="HTML",
+                    requires=["isRawV(self)"], ensures=["result == addAny(self, other)"], fresh=True, props=P,
+                    note="`other` ranges over str | HTML | any other object; for other objects str(other) is an external pure call (A5)"))
+    db.add(Contract(name=CORE + "HTML.__radd__", params=[("self", "AttrVal"), ("other", "AddArg")], returns="AttrVal", self_class="HTML",
+                    requires=["isRawV(self)", "not isAHtml(other)"], ensures=["result == raddAny(self, other)"], fresh=True, props=P))
     db.method_table[("HTML", "__add__")] = CORE + "HTML.__add__"
     db.method_table[("HTML", "__radd__")] = CORE + "HTML.__radd__"
